@@ -25,6 +25,8 @@ PROBES = {
     "dlt_consume_msg": "probe_consume_msg",
     "skip_storage_header": "probe_consume_msg",
     "Message::new": "probe_message_new",
+    "collect_statistic": "probe_collect_statistic",
+    "add_for_level": "probe_collect_statistic",
     "dlt_message": "probe_dlt_message_intern",
 }
 
